@@ -18,6 +18,9 @@ def scenarios(tier):
     L.append((SC.scn("own-fan3x2-j2", w["fan3x2"], ["redo --no-log -j2 t1 t2"], visible=VIS, limit=2), 1 if q else 2))
     L.append((SC.scn("own-failfan-j2", w["failfan"], ["redo --no-log -j2 top"], visible=VIS, limit=2, may_fail=True), 1 if q else 2))
     L.append((SC.scn("own-error-exit-j2", abort_world(), ["redo --no-log -j2 a"], visible=VIS, limit=2, may_fail=True), 1 if q else 2))
+    L.append((SC.scn("own-failshared-j2", w["failshared"], ["redo --no-log -j2 a b"], visible=VIS, limit=2, may_fail=True), 1 if q else 2))
+    L.append((SC.scn("inherit-failshared-n2", w["failshared"], ["redo-ifchange a b"], visible=VIS, jobserver=2, limit=2, may_fail=True),
+              1 if q else 2))
     # inherited (GNU make style) jobserver: the harness owns the pipes
     L.append((SC.scn("inherit-fan3-n2", w["fan3"], ["redo-ifchange top"], visible=VIS, jobserver=2, limit=2), 1 if q else 2))
     L.append((SC.scn("inherit-cross-n2", w["cross"], ["redo-ifchange p q"], visible=VIS, jobserver=2, limit=2), 1 if q else 2))
@@ -108,7 +111,7 @@ def main(tier):
              "if a cheat token was granted); the toplevel self-check and the hook-reported counts agree with N; in inherited mode the "
              "pipe holds exactly N-1 tokens and the cheat pipe is empty when every process has exited -- on success, failure and error exit",
         assumptions=["work sections exclude the time a script waits for its own redo-ifchange", "the harness never takes tokens itself"],
-        budget_s=55 if tier == "quick" else 2400)
+        budget_s=600 if tier == "quick" else 3000)
 
 
 def replay(path):
